@@ -102,6 +102,28 @@ def _where(e):
     return type(e).__name__
 
 
+def _name_qual(F, G):
+    """Which name records differ between the original and the re-imported font: decodable text or bytes that do not
+    decode in the record's encoding (root-cause tag for a 'name' difference; the verdict itself is on the bytes)."""
+    try:
+        a = {(n.nameID, n.platformID, n.platEncID, n.langID): n for n in F["name"].names}
+        b = {(n.nameID, n.platformID, n.platEncID, n.langID): n for n in G["name"].names}
+        kinds = set()
+        for k, n in a.items():
+            m = b.get(k)
+            if m is None or m.toBytes() != n.toBytes():
+                try:
+                    n.toUnicode()
+                    kinds.add("decodable")
+                except UnicodeDecodeError:
+                    kinds.add("undecodable")
+        if set(b) - set(a):
+            kinds.add("extra")
+        return "+".join(sorted(kinds)) + "-record" if kinds else ""
+    except Exception:
+        return ""
+
+
 def _glyph_entries(path, d, gi):
     """The entries of a glyf table file written with splitGlyphs, read with a real XML parser: one per
     TTGlyph element, with the included file's name (code points) and the glyph names found in it."""
@@ -214,8 +236,13 @@ def job(args):
                     if x0 != x1 and re.sub(r"\s+", " ", x0) == re.sub(r"\s+", " ", x1):
                         b1[t] = b0[t]
                         wsnorm.append(t)
-        out.append({"k": "bytes", "label": label, "cfg": cfg, "tags": tags, "dumped": dumped, "failed": failed,
-                    "b0": [bi(b0[t]) for t in tags], "b1": [bi(b1[t]) if t in b1 else 0 for t in tags], "only": only, "skip": skip, "wsnorm": wsnorm, "qual": qual})
+        quals = {}
+        if qual:
+            quals.update({t: qual for t in ("EBDT", "EBLC", "CBDT", "CBLC")})
+        if not failed and "name" in requested and "name" in b1 and b1["name"] != b0["name"]:
+            quals["name"] = _name_qual(F, G)
+        out.append({"k": "bytes", "label": label, "cfg": cfg, "tags": tags, "dumped": dumped, "failed": failed, "quals": quals,
+                    "b0": [bi(b0[t]) for t in tags], "b1": [bi(b1[t]) if t in b1 else 0 for t in tags], "only": only, "skip": skip, "wsnorm": wsnorm})
         if not failed.startswith("dump-raised"):
             # the layout of the dump
             entries = _parse_dump(main, cfg["split"])
@@ -320,8 +347,9 @@ def run(chk, parts=PARTS):
                 "text case = string through a TTX channel; distinct by (font, configuration) / string; non-trivial = font has >= 5 tables / string "
                 "contains a character XML treats specially")
     if "mc" in parts:
-        chk.tlc("MC_TTXDump", label="dump layout lattice + per-glyph file naming of all glyph-name pairs", timeout=900)
-        rn = chk.tlc("MC_TTXDump", cfg="MC_TTXDump_neg", label="negative: dumper records per-glyph names as written, not lower-cased", timeout=900, expect_ok=False)
+        chk.tlc("MC_TTXDump", label="dump layout lattice + per-glyph file naming of all glyph-name pairs", timeout=1800)
+        rn = chk.tlc("MC_TTXDump", cfg="MC_TTXDump_neg", label="negative: dumper records per-glyph names as written, not lower-cased",
+                     timeout=900, expect_ok=False, workers=4)
         if rn.exit == 0 or "RefOK is violated" not in rn.stdout:
             raise MachineryError("negative configuration of MC_TTXDump did not violate RefOK: the include-graph predicate is vacuous")
     lattice = configs(thorough, rng)
@@ -423,8 +451,10 @@ def run(chk, parts=PARTS):
             chk.reject("%s:%s" % (c, t["channel"]), "%s via %s: %r -> %r" % (c, t["channel"], t["s"], t["back"]), t)
         else:
             key = c
-            if t["k"] == "bytes" and t.get("qual") and c.split(":")[-1] in ("EBDT", "EBLC", "CBDT", "CBLC"):
-                key = "%s:%s" % (c, t["qual"])  # generated strikes have one bit depth per font: the class is part of the root cause
+            if t["k"] == "bytes" and t.get("quals", {}).get(c.split(":")[-1]):
+                # root-cause tags recorded by the harness: bitmap dump format + bit depth of generated strikes (one depth
+                # per font), the kind of name record that differs
+                key = "%s:%s" % (c, t["quals"][c.split(":")[-1]])
             chk.reject(key, "%s on %s cfg=%s only=%s skip=%s" % (key, t["label"], t["cfg"], t.get("only"), t.get("skip")), {"label": t["label"], "cfg": t["cfg"]})
     chk.assumptions += [
         "both sides are fully decoded and compiled (derived fields are recomputed identically); head.checkSumAdjustment masked; recalcTimestamp=False",
@@ -433,6 +463,7 @@ def run(chk, parts=PARTS):
         "generated glyph names are Latin-1 without control characters (what 'post' format 2 can carry and XML 1.0 can express)",
         "generated bitmap image data is exactly as long as the metrics demand with zero padding bits: 'row' / 'bitwise' dumps are pixel dumps",
         "file names are compared ignoring case for ASCII and Latin-1 letters (TTXDump!Fold)",
+        "generated name records contain no C0 control characters / bytes: XML 1.0 cannot express them (&#0; is not well-formed)",
     ]
 
 
